@@ -5,7 +5,7 @@ fn main() {
     println!("cargo:rerun-if-env-changed=BVH_GEN_SEED");
     println!("cargo:rerun-if-changed=../gen/gen_rig.py");
     println!("cargo:rerun-if-changed=build.rs");
-    for (spec, nq, file) in [("R1:Heap:1:all:20", "24", "rig1.rs"), ("R0::0:all:24", "4", "rig0.rs"), ("R3:Zst,Small,Heap:1:all:28", "60", "rig3.rs")] {
+    for (spec, nq, file) in [("R1:Heap:1:all:20", "24", "rig1.rs"), ("R0::0:all:24", "4", "rig0.rs"), ("R3:Zst,Small,Heap:3:all:28:Plain,Plain,Plain", "60", "rig3.rs")] {
         let st = Command::new("python3")
             .args(["../gen/gen_rig.py", spec, &seed, nq, &format!("{out}/{file}")])
             .status()
